@@ -18,7 +18,7 @@ QAddrs == {None, 0, 327680, 2147418112}
 TAddrs == {None, 0, 1, 327680, 65535, 2147418112}
 
 PTypes == <<TNm("u32"), TCPtr(TNm("u8")), TNm("i64"), TMPtr(TNm("T")), TNm("u8"), TNm("f32")>>
-PNames == <<"a", "b", "c", "d", "e", "g">>
+PNames == <<"a", "b", "c", "this", "e", "g">>
 Missing == TCPtr(TNm("Missing"))
 
 Params(n, bad) == [i \in 1..n |-> Arg(PNames[i], IF bad = i THEN Missing ELSE PTypes[i])]
